@@ -257,6 +257,55 @@ pub fn inputs(tier: Tier) -> Vec<(String, &'static str)> {
             }
         }
     }
+    // 6. module markers (`;; MODULE: NAME` comment lines read by parse_with_modules) followed by every short tail
+    let tails = ["", " ", "A", " A", " A - sales rules", "é", " é", "€", "\n", "rule", " rule", "\t", ";", ";;", " MODULE:", "\u{0}"];
+    let rule_texts = ["rule \"R\" { when A.b == 1 then A.c = 2; }", "rule R { when A.b == 1 then A.c = 2; }"];
+    for marker in [";; MODULE:", ";;MODULE:", ";; MODULE", ";; module:", "; MODULE:", ";; MODULE::"] {
+        for t in &tails {
+            for r in &rule_texts {
+                v.push((format!("{}{}{}", marker, t, r), "module_marker"));
+                v.push((format!("{}{}\n{}", marker, t, r), "module_marker"));
+                v.push((format!("{}\n{}{}\n{}", r, marker, t, r), "module_marker"));
+            }
+            v.push((format!("{}{}", marker, t), "module_marker"));
+        }
+    }
+    // 7. repetition of a short unit up to the full 4 KiB (the property's "prefix-operator chains ... up to the full
+    //    length", for every unit of one or two tokens, not only `!` and `(`): bare, in a condition and in an action
+    let rtoks: [&str; 22] = ["f", "(", ")", "x", ".", ",", "\"", " ", "1", "==", "&&", "!", "[", "]", "{", "}", ";", "+", "-", "é", "when", "then"];
+    let mut units: Vec<String> = rtoks.iter().map(|t| t.to_string()).collect();
+    for a in &rtoks {
+        for b in &rtoks {
+            units.push(format!("{}{}", a, b));
+        }
+    }
+    units.extend(["f()".to_string(), "f(x)".to_string(), "f(x),".to_string(), "a.b ".to_string(), "x == 1 ".to_string(), "\"s\" ".to_string(), "(x) ".to_string()]);
+    let reps: &[usize] = if quick { &[64, 1024] } else { &[16, 64, 256, 1024, 4096] };
+    for u in &units {
+        for &n in reps {
+            // quick tier: units with `{` make parse_rule take ~10 s per 4 KiB input (slow, far below the 120 s
+            // watchdog); they, and units without a bracket or quote, are repeated 256 times here and to the full
+            // length in the thorough tier
+            let n = if quick && (u.contains('{') || !u.contains(|c| "()\"[]".contains(c))) { n.min(256) } else { n };
+            let k = n.min(4000 / u.len().max(1));
+            let body = u.repeat(k);
+            v.push((body.clone(), "unit_repetition"));
+            v.push((format!("rule R {{ when {} then A.b = 1; }}", body), "unit_repetition"));
+            v.push((format!("rule R {{ when A.b == 1 then {} }}", body), "unit_repetition"));
+        }
+    }
+    // 8. numeric extremes where a parser converts units (stream window durations, salience, max-depth)
+    for num in ["0", "1", "18446744073709551615", "18446744073709551616", "9223372036854775807", "9223372036854775808", "4294967296", "-1", "1e30", "99999999999999999999999999"] {
+        for unit in ["ms", "sec", "min", "hour", "hours", "days", "s", "m", "h", "d", ""] {
+            v.push((format!("e: from stream(\"x\") over window({} {}, sliding)", num, unit), "numeric_extreme"));
+            v.push((format!("e: from stream(\"x\") over window({} {}, tumbling)", num, unit), "numeric_extreme"));
+            v.push((format!("window({} {}, sliding)", num, unit), "numeric_extreme"));
+            v.push((format!("{} {}", num, unit), "numeric_extreme"));
+        }
+        v.push((format!("rule R salience {} {{ when A.b == 1 then A.c = 2; }}", num), "numeric_extreme"));
+        v.push((format!("query \"Q\" {{\n goal: A.b == 1\n max-depth: {}\n max-solutions: {}\n}}", num, num), "numeric_extreme"));
+        v.push((format!("rule R {{ when A.b == {} then A.c = {}; }}", num, num), "numeric_extreme"));
+    }
     // de-duplicate, keep order
     let mut seen = BTreeSet::new();
     v.retain(|(s, _)| seen.insert(s.clone()));
@@ -321,6 +370,7 @@ pub fn run(opts: &Opts) -> Vec<Report> {
     let mut done = BTreeSet::new();
     let mut sites: BTreeMap<String, usize> = BTreeMap::new();
     let mut slowest = 0.0f64;
+    let mut slow_calls: Vec<(f64, &str, &str, String, usize)> = vec![];
     for (k, o) in res {
         done.insert(k);
         rep.count("evaluations", SUBJECTS.len() as u64);
@@ -341,7 +391,9 @@ pub fn run(opts: &Opts) -> Vec<Report> {
                     rep.violation(Violation { class: format!("panic_at_{}", site.replace(|c: char| !c.is_alphanumeric(), "_")), detail: format!("{} panicked on {:?}: {}", SUBJECTS[s], truncate(&ins[k].0), msg), tags, case: case(Some(s)) });
                 }
                 for sl in v["slow"].as_array().cloned().unwrap_or_default() {
-                    slowest = slowest.max(sl[1].as_f64().unwrap_or(0.0));
+                    let t = sl[1].as_f64().unwrap_or(0.0);
+                    slowest = slowest.max(t);
+                    slow_calls.push((t, SUBJECTS[sl[0].as_u64().unwrap_or(0) as usize % SUBJECTS.len()], ins[k].1, truncate(&ins[k].0), ins[k].0.len()));
                 }
             }
             Outcome::Hang => rep.violation(Violation { class: "did_not_terminate".into(), detail: format!("no entry point returned within {:?} on {:?} ({} bytes)", timeout, truncate(&ins[k].0), ins[k].0.len()), tags: vec![ins[k].1.to_string()], case: case(None) }),
@@ -360,9 +412,14 @@ pub fn run(opts: &Opts) -> Vec<Report> {
         rep.notes.push(format!("panic sites: {:?}", sites));
     }
     rep.notes.push(format!("slowest single call: {:.2} s", slowest));
+    slow_calls.sort_by(|a, b| b.0.partial_cmp(&a.0).unwrap_or(std::cmp::Ordering::Equal));
+    for (t, subj, fam, inp, len) in slow_calls.iter().take(12) {
+        rep.notes.push(format!("slow call: {:.2} s in {} on a {}-byte {} input {:?}", t, subj, len, fam, inp.chars().take(60).collect::<String>()));
+    }
+    rep.count("calls_slower_than_1s", slow_calls.len() as u64);
     rep.sample(json!({"input": ins[n / 3].0, "family": ins[n / 3].1}));
     rep.sample(json!({"input": ins[2 * n / 3].0, "family": ins[2 * n / 3].1}));
-    rep.bound = format!("{} distinct inputs x {} entry points: all token strings (len <= {} over 24 tokens, <= {} over 12) bare and in 3 holes of a rule skeleton; every 1-edit neighbour (truncation, token deletion/duplication/insertion, multi-byte insertion) of {} seeds; depth families n in 1..32, 48, 64, 128..4090 (balanced nesting <= 32); all strings of <= 2 scalars over 40 values; arithmetic: every operator between every pair of 16 operands (zero, extremes, negative, float, string, integer-zero / i64::MIN / missing fields) and two-operator chains with both parenthesisations; watchdog {:?} per input, 8 MiB stack", n, SUBJECTS.len(), if opts.tier == Tier::Quick { 3 } else { 4 }, if opts.tier == Tier::Quick { 4 } else { 5 }, 11, timeout);
+    rep.bound = format!("{} distinct inputs x {} entry points: all token strings (len <= {} over 24 tokens, <= {} over 12) bare and in 3 holes of a rule skeleton; every 1-edit neighbour (truncation, token deletion/duplication/insertion, multi-byte insertion) of {} seeds; depth families n in 1..32, 48, 64, 128..4090 (balanced nesting <= 32); all strings of <= 2 scalars over 40 values; arithmetic: every operator between every pair of 16 operands (zero, extremes, negative, float, string, integer-zero / i64::MIN / missing fields) and two-operator chains with both parenthesisations; module markers x 16 tails; every unit of one or two tokens over 22 tokens repeated up to 4 KiB (bare, in a condition, in an action); numeric extremes x time units in stream windows, salience, query limits; watchdog {:?} per input, 8 MiB stack", n, SUBJECTS.len(), if opts.tier == Tier::Quick { 3 } else { 4 }, if opts.tier == Tier::Quick { 4 } else { 5 }, 11, timeout);
     rep.assumptions.push("a case is non-trivial by construction (each input is distinct and goes through all 13 entry points)".into());
     rep.wall_s = t0.elapsed().as_secs_f64();
     vec![rep]
